@@ -73,6 +73,8 @@ pub struct Gen {
     pub step: usize,
     pub since_dump: usize,
     pub probes_left: usize,
+    /// a shrink was just issued mid-resize: probe the (now tight) headroom next
+    pub force_probe: bool,
 }
 
 const THRESHOLDS: [usize; 12] = [3, 7, 14, 28, 56, 112, 224, 448, 896, 1792, 3584, 7168];
@@ -83,7 +85,7 @@ impl Gen {
         let ths: Vec<usize> = THRESHOLDS.iter().copied().filter(|t| *t <= max_len.max(3)).collect();
         let base = *rng.pick(&ths);
         let target = (base as i64 + rng.below(5) as i64 - 1).max(1) as usize;
-        Gen { rng, slice, target, next_fresh: 0, step: 0, since_dump: 0, probes_left: 3 }
+        Gen { rng, slice, target, next_fresh: 0, step: 0, since_dump: 0, probes_left: if slice == Slice::Cap { 8 } else { 3 }, force_probe: false }
     }
 
     fn fresh(&mut self) -> u64 {
@@ -249,6 +251,17 @@ impl Gen {
         let o = observe(m);
         let split = o.old.is_some();
         let len = o.len;
+        if self.force_probe {
+            self.force_probe = false;
+            if o.cap - o.len.min(o.cap) <= 600 {
+                return (0, Op::FillProbe { start: 2_000_000 + self.next_fresh * 16 + self.rng.below(1000) });
+            }
+        }
+        // tight headroom is what `shrink_to` mid-resize produces: shrink, then fill to capacity
+        if split && matches!(self.slice, Slice::Cap | Slice::Core) && self.rng.chance(1, 12) {
+            self.force_probe = true;
+            return (0, Op::ShrinkToFit);
+        }
         // steer towards the target size: grow to it, then churn around it
         let growing = len < self.target;
         let d = self.rng.below(100);
@@ -318,13 +331,15 @@ impl Gen {
                         let c = *self.rng.pick(&[0usize, 1, 3, 4, 7, 8, 14, 15, 28, 29, 56, 57, 100, 1000]);
                         (1, Op::New { cap: c, seed: 0 })
                     }
-                    10 | 11 if len < 600 && self.probes_left > 0 => { self.probes_left -= 1; (0, Op::FillProbe { start: 1_000_000 + self.next_fresh * 16 + self.rng.below(1000) }) }
+                    10 | 11 if len < 600 && o.cap - o.len.min(o.cap) <= 300 && self.probes_left > 0 => { self.probes_left -= 1; (0, Op::FillProbe { start: 1_000_000 + self.next_fresh * 16 + self.rng.below(1000) }) }
                     _ => (0, Op::Insert { k: self.fresh(), v: 1 }),
                 };
             }
             _ => {}
         }
-        if growing && d < 55 {
+        // while a resize is pending, dwell: key-adding calls end the phase within ⌈L/R⌉ steps
+        let grow_p = if split { 12 } else { 55 };
+        if growing && d < grow_p {
             return (0, Op::Insert { k: self.fresh(), v: self.rng.below(1000) });
         }
         let has1 = w.map(1).is_some();
@@ -409,7 +424,7 @@ impl Gen {
                     (1, Op::New { cap: self.rng.below(40) as usize, seed: self.rng.below(1000) })
                 }
             }
-            20 if len < 600 && self.probes_left > 0 => { self.probes_left -= 1; (0, Op::FillProbe { start: 1_000_000 + self.next_fresh * 16 + self.rng.below(1000) }) }
+            20 if len < 600 && o.cap - o.len.min(o.cap) <= 300 && self.probes_left > 0 => { self.probes_left -= 1; (0, Op::FillProbe { start: 1_000_000 + self.next_fresh * 16 + self.rng.below(1000) }) }
             20 => (0, Op::Dump),
             _ => {
                 let n = 1 + self.rng.below(12);
